@@ -105,7 +105,7 @@ Fixpoint dec_digits (fuel : nat) (n : N) (acc : bytes) : bytes :=
   | S f => if n =? 0 then acc else dec_digits f (n / 10) ((48 + n mod 10) :: acc)
   end.
 
-Definition dec_N (n : N) : bytes := if n =? 0 then [48] else dec_digits (S (N.size_nat n)) n [].
+Definition dec_N (n : N) : bytes := if n =? 0 then [48] else dec_digits (S (N.to_nat (N.log2 n))) n [].
 
 (** x.BigInt().MarshalText(): canonical decimal, '-' for negatives *)
 Definition dec_Z (z : Z) : bytes :=
@@ -302,6 +302,29 @@ Fixpoint chunks {A} (fuel : nat) (k : nat) (l : list A) : list (list A) :=
 
 Definition batches {A} (l : list A) : list (list A) := chunks (length l) (N.to_nat batch_size) l.
 
+Definition enc_fn := estate -> val -> Outcome (bytes * estate).
+
+(** encode the values of [l] one after the other *)
+Fixpoint enc_seq (enc : enc_fn) (l : list val) (st : estate) {struct l} : Outcome (bytes * estate) :=
+  match l with
+  | [] => Ok ([], st)
+  | x :: r =>
+      bind (enc st x) (fun '(b1, st1) =>
+      bind (enc_seq enc r st1) (fun '(b2, st2) => Ok (b1 ++ b2, st2)))
+  end.
+
+(** for each batch: MARK elems... <op> *)
+Fixpoint enc_batches (enc : enc_fn) (op : N) (bs : list (list val)) (st : estate) {struct bs}
+  : Outcome (bytes * estate) :=
+  match bs with
+  | [] => Ok ([], st)
+  | b :: r =>
+      bind (enc_seq enc b st) (fun '(b1, st1) =>
+      bind (enc_batches enc op r st1) (fun '(b2, st2) => Ok (opMARK :: b1 ++ op :: b2, st2)))
+  end.
+
+Definition flat_pairs (kvs : list (val * val)) : list val := flat_map (fun kv => [fst kv; snd kv]) kvs.
+
 Section Encoder.
   (** the host Pickler ([None]: e.pickler == nil) *)
   Variable pickler : option (node -> presult).
@@ -310,23 +333,8 @@ Section Encoder.
     match fuel with
     | O => OutOfFuel
     | S f =>
-        let enc_seq :=
-          fix go (l : list val) (st : estate) {struct l} : Outcome (bytes * estate) :=
-            match l with
-            | [] => Ok ([], st)
-            | x :: r =>
-                bind (encode f h st x) (fun '(b1, st1) =>
-                bind (go r st1) (fun '(b2, st2) => Ok (b1 ++ b2, st2)))
-            end in
-        (* for each batch: MARK elems... <op> *)
-        let enc_batches (op : N) :=
-          fix go (bs : list (list val)) (st : estate) {struct bs} : Outcome (bytes * estate) :=
-            match bs with
-            | [] => Ok ([], st)
-            | b :: r =>
-                bind (enc_seq b st) (fun '(b1, st1) =>
-                bind (go r st1) (fun '(b2, st2) => Ok (opMARK :: b1 ++ op :: b2, st2)))
-            end in
+        let enc_seq := enc_seq (encode f h) in
+        let enc_batches := enc_batches (encode f h) in
         match v with
         | VNone => Ok ([opNONE], st)
         | VBool true => Ok ([opNEWTRUE], st)
@@ -359,7 +367,7 @@ Section Encoder.
                       match nd with
                       | NDict kvs =>
                           bind (enc_batches opSETITEMS
-                                  (map (flat_map (fun kv => [fst kv; snd kv])) (batches kvs)) (e_memoize a st))
+                                  (map flat_pairs (batches kvs)) (e_memoize a st))
                                (fun '(b, st1) => Ok (opEMPTY_DICT :: opMEMOIZE :: b, st1))
                       | NList l =>
                           match l with
@@ -936,9 +944,8 @@ Definition s_comma : bytes := [44;32].
 Definition s_comma_and : bytes := [44;32;97;110;100;32].
 Definition s_changed : bytes := [32;99;104;97;110;103;101;100].
 
-(** [has k] = md.Has(k) *)
-Definition diff_reason (has : bytes -> bool) : Outcome bytes :=
-  let reasons := filter has function_env_keys in
+(** the switch over len(reasons) *)
+Definition reason_of (reasons : list bytes) : Outcome bytes :=
   let n := Z.of_nat (length reasons) in
   bind (match length reasons with
         | O => Ok s_environment
@@ -947,3 +954,7 @@ Definition diff_reason (has : bytes -> bool) : Outcome bytes :=
         | _ => bind (slice_to reasons (n - 1)) (fun pre =>
                bind (index reasons (n - 1)) (fun last => Ok (join_sep s_comma pre ++ s_comma_and ++ last)))
         end) (fun r => Ok (r ++ s_changed)).
+
+(** [has k] = md.Has(k): the keys of functionEnvKeys that differ, in that order *)
+Definition diff_reason (has : bytes -> bool) : Outcome bytes :=
+  reason_of (filter has function_env_keys).
